@@ -15,6 +15,7 @@ from . import c09
 ID = "C19"
 TITLE = "Definitions outside the dependency closure cannot influence the result"
 RULE = (
+    "(Replacements include valid definitions that merely say something else - other extent, sealing, kind; workspaces may carry fixed port-IDs with an unreferenced definition elsewhere on the port-ID of a target, an unsealed member next to an unreferenced delimited sibling minor version, several root directories of one name, the namesake of a self-referential / cyclic definition, a definition that a dangling dotted reference would mean if it were relative.)  "
     "Cases are (workspace, what is read, disturbance): a workspace of <= 8 definitions in 2..3 root namespaces (optionally with one of the "
     "C09 faults inside the closure, so that the outcome is an error), read with read_namespace(root, all roots as lookup) or read_files("
     "target subset); the disturbance replaces the text of 1..2 definitions that the reference model places outside the closure - in a "
